@@ -71,10 +71,16 @@ def build_corpus(tier: str, seed: int = 0, extra_seed=None):
         return out
     for k, (name, src) in enumerate(sorted(c01_corpus.TRIGGERS.items())):
         add(f"trigger:{name}", "trigger", src, pick_combos(k, 2 if quick else 16))
+        if k % 3 == 0 or not quick:        # the same program without its final line terminator: the format_code wrapper path
+            add(f"trigger:{name}:unterminated", "trigger", src.rstrip("\n"), pick_combos(k + 1, 1 if quick else 4))
+    # every listed finding is exercised on every run (all witnesses, both tiers); the witness of a `fixed:` entry is a
+    # must-pass regression case: if it fails again nothing suppresses it
+    fixed_ids = {f.id for f in common.load_findings(PID) if f.kind == "fixed"}
     for k, (fid, w) in enumerate(sorted(load_witnesses().items())):
-        out.append((f"witness:{fid}", "witness", w["src"], [w["opts"]]))
+        fam = "regression" if fid in fixed_ids else "witness"
+        out.append((f"{fam}:{fid}", fam, w["src"], [w["opts"]]))
         if not quick:
-            add(f"witness:{fid}:all", "witness", w["src"], pick_combos(k, 8))
+            add(f"{fam}:{fid}:all", fam, w["src"], pick_combos(k, 8))
     nflow, ndata = (240, 240) if quick else (600, 600)
     shard = (lambda i: i % 4 == seed % 4) if quick else (lambda i: True)
     for i in range(nflow):
@@ -89,8 +95,18 @@ def build_corpus(tier: str, seed: int = 0, extra_seed=None):
     return out
 
 
+def _may_match(c, r, fixed_sites) -> bool:
+    """a `fixed:` witness must pass at the site that was repaired; under other option combinations it may still run
+    into a different, listed defect"""
+    if c[1] != "regression":
+        return True
+    fid = c[0].split(":")[1]
+    return r.get("site") != fixed_sites.get(fid)
+
+
 def run_sweep(corpus, scratch: Path, pool, kf, hist: Counter, shrink_budget=120):
     """Returns (stats, unmatched failure cases, matched {finding id: [cases]})."""
+    fixed_sites = {f.id: f.fields.get("site") for f in kf if f.kind == "fixed"}
     import time
     t0 = time.time()
     srcs = [c[2] for c in corpus]
@@ -141,7 +157,7 @@ def run_sweep(corpus, scratch: Path, pool, kf, hist: Counter, shrink_budget=120)
     for (c, b, o, text), r in zip(fails, bis):
         r = dict(r, cid=c[0], family=c[1], output=text)
         hist["first offending stage: " + r["site"]] += 1
-        f = c01_findings.match(kf, r) if "stage_in" in r else None
+        f = c01_findings.match(kf, r) if "stage_in" in r and _may_match(c, r, fixed_sites) else None
         if f is not None:
             matched.setdefault(f.id, []).append(r)
         else:
@@ -152,7 +168,7 @@ def run_sweep(corpus, scratch: Path, pool, kf, hist: Counter, shrink_budget=120)
         bis2 = pool.bisect_all([(c[2], o, list(b), shrink_budget) for c, b, o, _ in pending])
         for (c, b, o, r0), r in zip(pending, bis2):
             r = dict(r, cid=c[0], family=c[1], output=r0["output"])
-            f = c01_findings.match(kf, r) if "stage_in" in r else None
+            f = c01_findings.match(kf, r) if "stage_in" in r and _may_match(c, r, fixed_sites) else None
             if f is not None:
                 matched.setdefault(f.id, []).append(r)
             elif r["site"] == "not-reproduced":
